@@ -96,6 +96,9 @@ type vhCase struct {
 	ID    string       `json:"id"`
 	Nodes []vhNodeSpec `json:"nodes"`
 	Ops   []vhOp       `json:"ops"`
+	// RealFD > 0: every node uses the real accrual failure detector (bootstrap interval RealFD ms, 50 samples, as
+	// gossip.New wires it) behind a virtual clock that only the "tick" op advances
+	RealFD int64 `json:"realfd"`
 }
 
 type vhCaseOut struct {
@@ -142,22 +145,44 @@ type vhFD struct {
 	levels  map[string]float64
 	reports []string
 	removed []string
+	// real-detector mode (case.RealFD): the REAL accrualFailureDetector behind a virtual clock; every call is recorded
+	real  *accrualFailureDetector
+	clock time.Time
+	calls []string           // "report|<hexid>|<ns>", "level|<hexid>|<ns>|<value>", "remove|<hexid>"
+	asked map[string]float64 // levels answered since the last reset
 }
 
 func (d *vhFD) Report(id string) {
 	d.mu.Lock()
 	defer d.mu.Unlock()
 	d.reports = append(d.reports, id)
+	if d.real != nil {
+		d.real.ReportWithTimestamp(id, d.clock)
+		d.calls = append(d.calls, fmt.Sprintf("report|%s|%d", vhHex(id), d.clock.UnixNano()))
+	}
 }
 func (d *vhFD) SuspicionLevel(id string) float64 {
 	d.mu.Lock()
 	defer d.mu.Unlock()
+	if d.real != nil {
+		l := d.real.SuspicionLevelAt(id, d.clock)
+		d.calls = append(d.calls, fmt.Sprintf("level|%s|%d|%g", vhHex(id), d.clock.UnixNano(), l))
+		if d.asked == nil {
+			d.asked = map[string]float64{}
+		}
+		d.asked[vhHex(id)] = l
+		return l
+	}
 	return d.levels[id]
 }
 func (d *vhFD) Remove(id string) {
 	d.mu.Lock()
 	defer d.mu.Unlock()
 	d.removed = append(d.removed, id)
+	if d.real != nil {
+		d.real.Remove(id)
+		d.calls = append(d.calls, "remove|"+vhHex(id))
+	}
 }
 
 // ---- in-memory packet conn: the simulated network ----
@@ -263,11 +288,17 @@ func (t *vhTee) OnExpired(id string)           { t.a.OnExpired(id); t.b.OnExpire
 
 func vhNewWorld(specs []vhNodeSpec) *vhWorld { return vhNewWorldH(specs, nil) }
 
-func vhNewWorldH(specs []vhNodeSpec, hooks *VhHooks) *vhWorld {
+func vhNewWorldH(specs []vhNodeSpec, hooks *VhHooks) *vhWorld { return vhNewWorldFD(specs, hooks, 0) }
+
+func vhNewWorldFD(specs []vhNodeSpec, hooks *VhHooks, realFD int64) *vhWorld {
 	w := &vhWorld{hooks: hooks}
 	for i, sp := range specs {
 		id, addr := vhUnhex(sp.ID), vhUnhex(sp.Addr)
 		fd := &vhFD{levels: map[string]float64{}}
+		if realFD > 0 {
+			fd.real = newAccrualFailureDetector(time.Duration(realFD)*time.Millisecond, 50)
+			fd.clock = time.Unix(1700000000, 0)
+		}
 		metrics := newMetrics()
 		var watcher Watcher = &vhWatcher{n: i, events: &w.events}
 		if hooks != nil && hooks.Watcher != nil {
@@ -524,6 +555,16 @@ func (w *vhWorld) step(op vhOp) (obs vhObs) {
 			}
 		}
 		obs.Extra = ex
+	case "tick":
+		// real-detector mode: the virtual clock of every node advances by D milliseconds
+		for _, n := range w.nodes {
+			n.fd.mu.Lock()
+			n.fd.clock = n.fd.clock.Add(time.Duration(op.D) * time.Millisecond)
+			n.fd.mu.Unlock()
+		}
+	case "hear":
+		// real-detector mode: node N's detector is told it heard from Ref (what the delta handler does)
+		w.nodes[op.N%nn].fd.Report(vhUnhex(op.Ref))
 	case "liveness":
 		n := w.nodes[op.N%nn]
 		lv := map[string]float64{}
@@ -697,6 +738,21 @@ func (w *vhWorld) step(op vhOp) (obs vhObs) {
 		}
 	}
 
+	for _, idx := range acting {
+		fd := w.nodes[idx].fd
+		if fd.real == nil {
+			continue
+		}
+		fd.mu.Lock()
+		if obs.Extra == nil {
+			obs.Extra = map[string]any{}
+		}
+		obs.Extra["fdcalls"] = append([]string{}, fd.calls...)
+		obs.Extra["levels"] = fd.asked
+		obs.Extra["clock"] = fd.clock.UnixNano()
+		fd.calls, fd.asked = nil, nil
+		fd.mu.Unlock()
+	}
 	obs.Nows = w.stamps(before, acting...)
 	obs.Events = append(obs.Events, w.events...)
 	obs.Sent = append(obs.Sent, w.sent...)
@@ -741,7 +797,7 @@ func vhRunCase(c vhCase) (out vhCaseOut) { return vhRunCaseH(c, nil) }
 
 func vhRunCaseH(c vhCase, hooks *VhHooks) (out vhCaseOut) {
 	out.ID = c.ID
-	w := vhNewWorldH(c.Nodes, hooks)
+	w := vhNewWorldFD(c.Nodes, hooks, c.RealFD)
 	defer w.close()
 	defer func() {
 		if r := recover(); r != nil {
